@@ -864,7 +864,7 @@ func execFileDefProbe(args []string) string {
 	for _, in := range infos {
 		dn := fmt.Sprintf("ft%d", in.ft.b)
 		names = append(names, dn)
-		fmt.Fprintf(&sb, "def %s : FileType := {\n  name := \"%s\", ftype := %d, sortFrom := %d, defaultDg := 0x%016x,\n  d1 := %s, d253 := %s, d254 := %s,\n  dropped := %s,\n  slots := [\n", dn, in.ft.name, in.ft.b, in.sortFrom, in.defaultDg, leanTsF(in.defCands[0]), leanTsF(in.defCands[1]), leanTsF(in.defCands[2]), leanNatList(in.dropped))
+		fmt.Fprintf(&sb, "def %s : FileType := {\n  name := \"%s\", gotype := \"%s\", ftype := %d, sortFrom := %d, defaultDg := 0x%016x,\n  d1 := %s, d253 := %s, d254 := %s,\n  dropped := %s,\n  slots := [\n", dn, in.ft.name, strings.TrimPrefix(fmt.Sprintf("%T", in.ft.fn()), "*"), in.ft.b, in.sortFrom, in.defaultDg, leanTsF(in.defCands[0]), leanTsF(in.defCands[1]), leanTsF(in.defCands[2]), leanNatList(in.dropped))
 		for i, s := range in.slots {
 			sep := ","
 			if i == len(in.slots)-1 {
